@@ -5,6 +5,7 @@ import Mochi.Driver.Keepalive
 import Mochi.Driver.Ledger
 import Mochi.Driver.BufPool
 import Mochi.Driver.WsConn
+import Mochi.Driver.Codec
 open Mochi.Driver
 
 structure DState where
@@ -24,7 +25,7 @@ def answer (st : DState) (line : String) : DState × String :=
   match ws with
   | ["reset"] => ({}, "-\tok\t-")
   | _ =>
-    match (varintOp impl ws <|> keepaliveOp impl ws <|> wsOp impl ws) with
+    match (varintOp impl ws <|> keepaliveOp impl ws <|> wsOp impl ws <|> codecOp impl ws) with
     | some r => (st, fmt r)
     | none =>
       match topicsOp st.topics impl ws with
